@@ -2,10 +2,11 @@
 import random
 from props.auth_common import *
 
+from props import urlpath_probe
 ID = "C10"
-COQ_TARGETS = ["Run/Run_Auth.vo"]
+COQ_TARGETS = ["Run/Run_UrlPath.vo", "Run/Run_Auth.vo"]
 META = {
-    "text": "Theorems (Properties/C10.v) over the Gallina model of Token.EndpointPermitted, the three route functions (proxyHTTPRoute, proxyTCPRoute, upstreamRoute) and MultiTenantVerifier: a token with a non-empty endpoint list is permitted on E iff E is literally in the list; the endpoint evaluated by EndpointPermitted is the endpoint handed to Select / AddConn for every way of naming the target (Host label, x-piko-endpoint, path parameter, conflicting combinations); with a tenant table a request is accepted only under a configured tenant whose own verifier accepts the token, no/unknown tenant is 401, the default verifier is unreachable, and without tenants any tenant header is 401. The model is tied to the code by ~900 real requests (claim sets x target namings x ports, tenant tables x tokens x tenant headers) against the real servers, replayed on the model inside Coq.",
+    "text": "Theorems (Properties/C10.v) over the Gallina model of Token.EndpointPermitted, the three route functions (proxyHTTPRoute, proxyTCPRoute, upstreamRoute) and MultiTenantVerifier: a token with a non-empty endpoint list is permitted on E iff E is literally in the list; the endpoint evaluated by EndpointPermitted is the endpoint handed to Select / AddConn for every way of naming the target (Host label, x-piko-endpoint, path parameter, conflicting combinations); with a tenant table a request is accepted only under a configured tenant whose own verifier accepts the token, no/unknown tenant is 401, the default verifier is unreachable, and without tenants any tenant header is 401. The model is tied to the code by ~900 real requests (claim sets x target namings x ports, tenant tables x tokens x tenant headers) against the real servers, replayed on the model inside Coq. The endpoint named by URL path (listen and TCP dial) is covered by Proxy/UrlPath.v: net/url escaping on the client, net/http decoding and gin's parameter match on the server - for every byte string the route parameter that is checked against the token is the id the client named, or there is no route (C10_path_named_endpoint_is_the_clients); tied to the real client rendering + request parser + gin on ~190 ids per run.",
     "note": "Trusted: Coq kernel+VM, the hand-written model, golang-jwt/keyfunc/crypto (abstracted as the signature relation), gin's dispatch and parameter extraction, net/http Host handling, the Go harness. The second-node hop of a forwarded request (H2, fixed in 5024de3) is covered by C01/C06, not here.",
     "technique": "Coq proof (decision-logic lemmas) + model/implementation correspondence by differential replay",
 }
@@ -236,11 +237,16 @@ def run(ctx):
            "monitor": {"histories": nreq, "failures": len(stats["failures"]),
                        "failures_by_signature": {s: len([1 for f in stats["failures"] if f[2]["sig"] == s]) for s in {f[2]["sig"] for f in stats["failures"]}}}}
     cov.update(cov_extra)
+    ucov, uviol = urlpath_probe.run(ctx, ID)
+    cov["url_path"] = ucov
+    violations += uviol
     return {"coverage": cov, "violations": violations, "known": known}
 
 
 def replay(path, wd):
     obj = json.load(open(path))
+    if obj.get("kind") == "urlpath":
+        return urlpath_probe.replay(obj, wd)
     if obj.get("kind") == "token-path":
         from props import proxy_common as px
         cl = obj["cluster"]
